@@ -15,6 +15,7 @@ func init() {
 	vHarnesses["C03_step"] = H_C03_step
 	vHarnesses["C06_hist"] = H_C06_hist
 	vHarnesses["C08_feed"] = H_C08_feed
+	vHarnesses["C03_pair"] = H_C03_pair
 }
 
 type vSink struct {
@@ -385,3 +386,28 @@ func H_C08_feed() {
 }
 
 func tracingForTests() *tracing.TracerComponent { return tracing.NewTracerComponent() }
+
+// H_C03_pair: two observers (two vBuckets) fed alternately: no cross-talk —
+// each forwards its own events with its own vBucket's snapshot and vbUUID.
+func H_C03_pair() {
+	setMerge(true)
+	cfg := vObsConfig()
+	a, sa := vNewObserver(cfg, 1, ^uint64(0), nil)
+	b, sb := vNewObserver(cfg, 2, ^uint64(0), nil)
+	ua, ub := gocbcore.VbUUID(nondetU64("ua")), gocbcore.VbUUID(nondetU64("ub"))
+	a.SetVbUUID(ua)
+	b.SetVbUUID(ub)
+	s1, e1, s2, e2 := nondetU64("a.s"), nondetU64("a.e"), nondetU64("b.s"), nondetU64("b.e")
+	x, y := nondetU64("a.seq"), nondetU64("b.seq")
+	assume(s1 <= x && x <= e1 && s2 <= y && y <= e2)
+	a.SnapshotMarker(models.DcpSnapshotMarker{StartSeqNo: s1, EndSeqNo: e1, VbID: 1})
+	b.SnapshotMarker(models.DcpSnapshotMarker{StartSeqNo: s2, EndSeqNo: e2, VbID: 2})
+	a.Mutation(gocbcore.DcpMutation{SeqNo: x, VbID: 1, Key: []byte("ka")})
+	b.Deletion(gocbcore.DcpDeletion{SeqNo: y, VbID: 2, Key: []byte("kb")})
+	assert(len(sa.events) == 2 && len(sb.events) == 2, "each vBucket's consumer side sees exactly its own events")
+	ma := sa.events[1].(models.DcpMutation)
+	db := sb.events[1].(models.DcpDeletion)
+	assert(ma.VbID == 1 && ma.Offset.SeqNo == x && ma.Offset.StartSeqNo == s1 && ma.Offset.EndSeqNo == e1 && ma.Offset.VbUUID == ua && string(ma.Key) == "ka", "vBucket 1's event is untouched by vBucket 2's stream")
+	assert(db.VbID == 2 && db.Offset.SeqNo == y && db.Offset.StartSeqNo == s2 && db.Offset.EndSeqNo == e2 && db.Offset.VbUUID == ub && string(db.Key) == "kb", "vBucket 2's event is untouched by vBucket 1's stream")
+	cover("pair")
+}
